@@ -70,6 +70,19 @@ def enumerate_paths(body, is_target, limit=4000):
                         root = body.root_place(pl) if hasattr(body, "root_place") else pl
                         if 0 < root["l"] <= body.arg_count:
                             env["val:%d" % st["lhs"]["l"]] = repr(G.describe(body, st["rv"]["op"]))
+            if st["k"] == "assign" and not st["lhs"]["p"]:
+                # the variant a local holds on this path (`let x = if c { Some(a) } else { None };` then `match x`)
+                rv0 = st["rv"]
+                if rv0["k"] == "agg" and rv0.get("ak") == "adt" and isinstance(rv0.get("vidx"), int):
+                    env["disc:%d" % st["lhs"]["l"]] = rv0["vidx"]
+                elif rv0["k"] == "use":
+                    plx = op_place(rv0["op"])
+                    if plx is not None and not plx["p"] and ("disc:%d" % plx["l"]) in env:
+                        env["disc:%d" % st["lhs"]["l"]] = env["disc:%d" % plx["l"]]
+                    else:
+                        env.pop("disc:%d" % st["lhs"]["l"], None)
+                else:
+                    env.pop("disc:%d" % st["lhs"]["l"], None)
             if st["k"] == "assign" and not st["lhs"]["p"] and body.local_ty(st["lhs"]["l"]) == "bool":
                 rv = st["rv"]
                 l = st["lhs"]["l"]
@@ -133,6 +146,16 @@ def enumerate_paths(body, is_target, limit=4000):
             if sd and sd[1] != "term" and sd[2]["k"] == "discr" and str(sd[2].get("adt", "")).endswith("option::Option"):
                 is_opt = True
         vals = [v for v, _ in targets]
+        # a discriminant whose value is known on this path
+        known_d = None
+        if pl is not None and not pl["p"]:
+            sd2 = body.single_def(pl["l"])
+            if sd2 and sd2[1] != "term" and sd2[2]["k"] == "discr" and not sd2[2]["place"]["p"]:
+                known_d = env.get("disc:%d" % sd2[2]["place"]["l"])
+        if known_d is not None:
+            nxt = next((tb for v, tb in targets if v == known_d), other)
+            step(nxt, env, lits, seen | {b})
+            return
         for v, tb in targets:
             lit = ("some(%s)" % base, v == 1) if is_opt else ("is(%s,%d)" % (base, v), True)
             step(tb, env, lits | {lit}, seen | {b})
